@@ -185,6 +185,14 @@ def _stop_server():
 
 @st.composite
 def e2e_spec(draw):
+    if draw(st.integers(0, 1)) == 0:
+        # burst: many small requests in flight at once over few connections (request ids are matched under the heaviest multiplexing)
+        # (slow requests stay in flight while the same threads issue many short ones after them)
+        nreq = draw(st.integers(40, 120))
+        reqs = [{'payload': draw(SMALL_OBJ), 'delay_ms': draw(st.sampled_from([0, 1, 1, 5, 5, 60, 200])), 'block_ms': 0, 'fail': draw(st.integers(0, 9)) == 0} for _ in range(nreq)]
+        nthreads = draw(st.integers(3, 8))
+        owners = [draw(st.sampled_from(list(range(nthreads)) * 3 + [nthreads])) for _ in range(nreq)]
+        return {'reqs': reqs, 'conns': draw(st.sampled_from([1, 1, 2])), 'nthreads': nthreads, 'owners': owners, 'gap_ms': 0}
     nreq = draw(st.integers(1, 12))
     reqs = []
     for i in range(nreq):
@@ -381,6 +389,6 @@ RULE = (
 
 FAMILIES = [
     Family('F1_framing', 'pure', framing_spec(), run_framing, quick=4000, thorough=400_000, shards_quick=8, rule=RULE, fuzz=('mpservice.socket',)),
-    Family('F2_socket_end_to_end', 'real', e2e_spec(), run_e2e, quick=72, thorough=4000, shards_quick=12, shards_thorough=16, rule=RULE, shrink=False, teardown=_stop_server),
+    Family('F2_socket_end_to_end', 'real', e2e_spec(), run_e2e, quick=160, thorough=4000, shards_quick=12, shards_thorough=16, rule=RULE, shrink=False, teardown=_stop_server),
     Family('F3_named_pipe', 'real', pipe_spec(), run_pipe, quick=120, thorough=5000, shards_quick=4, shards_thorough=8, rule=RULE, shrink=False),
 ]
